@@ -366,7 +366,7 @@ func (env *c03Env) lookupCase(w *emit.Writer, in c03In, class string) error {
 	var name string
 	var nerr, err, obsErr error
 	var qual, called bool
-	var ip, sni string
+	var ip, implIP, sni string
 	var loaded *c03Cert
 	var cert *tls.Certificate
 	observe := func(hello *tls.ClientHelloInfo) (*tls.Certificate, error) {
@@ -388,7 +388,14 @@ func (env *c03Env) lookupCase(w *emit.Writer, in c03In, class string) error {
 		}
 		name, nerr = env.cfg.VerifNameFromClientHello(hello)
 		qual = nerr == nil && certmagic.SubjectQualifiesForCert(name)
-		ip = certmagic.VerifLocalIPFromConn(hello.Conn)
+		// the connection's local IP as the property means it: the textual IP address of the local
+		// endpoint (IPv4 in dotted form whatever the byte length of the net.IP, no zone, no port),
+		// computed here and NOT taken from the code's own localIPFromConn, whose answer is only recorded
+		implIP = certmagic.VerifLocalIPFromConn(hello.Conn)
+		ip = implIP
+		if ta, ok := hello.Conn.LocalAddr().(*net.TCPAddr); ok && ta != nil && ta.IP != nil {
+			ip = ta.IP.String()
+		}
 		// what loadCertFromStorage would yield for this name (exact key, then first label -> "*")
 		if nerr == nil {
 			byName := map[string]*c03Cert{}
@@ -483,6 +490,9 @@ func (env *c03Env) lookupCase(w *emit.Writer, in c03In, class string) error {
 		obs["cert"], obs["complete"] = id, complete
 	}
 	obs["name_err"], obs["qualifies"], obs["local_ip"] = nerr != nil, qual, ip
+	if implIP != ip {
+		obs["local_ip_as_code_sees_it"] = implIP
+	}
 	if loaded != nil {
 		obs["loadable"] = loaded.ID
 	}
